@@ -5,6 +5,11 @@ import scipy.sparse as sp
 from .. import coqrun as cq
 from .. import hier
 
+def _nn(v):
+    """NaN counts as 'exceeds every bound' in the oracle comparisons"""
+    return np.inf if np.isnan(v) else v
+
+
 TECHNIQUE = 'Coq proof: cycle = x + M(b - Ax) with M the textbook recursion (any hierarchy of additive groups) + exact Q correspondence'
 LEVEL_TEXT = ('Kernel-checked theorems (Props/C03.v) about the Gallina transcription of MultilevelSolver.__solve, for '
               'every hierarchy depth, every family of abelian groups as level spaces and every additive A, smoother '
@@ -255,12 +260,12 @@ def oracle_part(ctx):
             br = np.array([rng.uniform(-1, 1) for _ in range(n)]).astype(dt)
             xs = xr.copy()
             L.presmoother(L.A, xs, br)
-            if np.linalg.norm(xs - (xr + d['Bpre'] @ (br - Ad @ xr))) > 1e-9 * (1 + np.linalg.norm(xs)):
+            if _nn(np.linalg.norm(xs - (xr + d['Bpre'] @ (br - Ad @ xr)))) > 1e-9 * (1 + np.linalg.norm(xs)):
                 ctx.fail('smoother-not-affine/%s' % pre[0], 'presmoother is not x + B(b-Ax) with fixed B', case)
                 ok = False
             xs = xr.copy()
             L.postsmoother(L.A, xs, br)
-            if np.linalg.norm(xs - (xr + d['Bpost'] @ (br - Ad @ xr))) > 1e-9 * (1 + np.linalg.norm(xs)):
+            if _nn(np.linalg.norm(xs - (xr + d['Bpost'] @ (br - Ad @ xr)))) > 1e-9 * (1 + np.linalg.norm(xs)):
                 ctx.fail('smoother-not-affine/%s' % post[0], 'postsmoother is not x + B(b-Ax) with fixed B', case)
                 ok = False
             levels.append(d)
@@ -289,20 +294,20 @@ def oracle_part(ctx):
             tol = 1e-9 * scale
             x1 = ml.solve(b, x0=x0, maxiter=1, tol=1e-300, cycle=cname, cycles_per_level=cpl)
             want = x0 + M @ (b - A0 @ x0) if nlev > 1 else M @ b
-            if np.linalg.norm(x1 - want) > tol * (1 + np.linalg.norm(want)):
+            if _nn(np.linalg.norm(x1 - want)) > tol * (1 + np.linalg.norm(want)):
                 ctx.fail('cycle/%s/not-textbook' % cname, '|solve - (x + M(b-Ax))| = %.3g' % np.linalg.norm(x1 - want), cs)
             # k calls == one k-cycle call
             xa = x0.copy()
             for _ in range(3):
                 xa = ml.solve(b, x0=xa, maxiter=1, tol=1e-300, cycle=cname, cycles_per_level=cpl)
             xb = ml.solve(b, x0=x0, maxiter=3, tol=1e-300, cycle=cname, cycles_per_level=cpl)
-            if np.linalg.norm(xa - xb) > 1e-10 * (1 + np.linalg.norm(xb)):
+            if _nn(np.linalg.norm(xa - xb)) > 1e-10 * (1 + np.linalg.norm(xb)):
                 ctx.fail('cycle/%s/k-calls' % cname, '3 one-cycle calls differ from one 3-cycle call by %.3g' % np.linalg.norm(xa - xb), cs)
             # exact solution is a fixed point
             if np.linalg.cond(A0) < 1e8:
                 xs = np.linalg.solve(A0, b)
                 xf = ml.solve(b, x0=xs, maxiter=1, tol=1e-300, cycle=cname, cycles_per_level=cpl)
-                if np.linalg.norm(xf - xs) > 1e-7 * scale * (1 + np.linalg.norm(xs)):
+                if _nn(np.linalg.norm(xf - xs)) > 1e-7 * scale * (1 + np.linalg.norm(xs)):
                     ctx.fail('cycle/%s/fixed-point' % cname, 'exact solution moved by %.3g' % np.linalg.norm(xf - xs), cs)
             # preconditioner: linear and equal to M (cpl = 1)
             if cpl == 1:
@@ -310,9 +315,9 @@ def oracle_part(ctx):
                 u = np.array([rng.uniform(-1, 1) for _ in range(n0)]).astype(dt)
                 v = np.array([rng.uniform(-1, 1) for _ in range(n0)]).astype(dt)
                 Mu, Mv, Muv = Mop @ u, Mop @ v, Mop @ (2.5 * u + v)
-                if np.linalg.norm(Muv - (2.5 * Mu + Mv)) > tol * (1 + np.linalg.norm(Muv)):
+                if _nn(np.linalg.norm(Muv - (2.5 * Mu + Mv))) > tol * (1 + np.linalg.norm(Muv)):
                     ctx.fail('aspreconditioner/%s/not-linear' % cname, 'M(2.5u+v) != 2.5Mu+Mv', cs)
-                if np.linalg.norm(Mu - M @ u) > tol * (1 + np.linalg.norm(Mu)):
+                if _nn(np.linalg.norm(Mu - M @ u)) > tol * (1 + np.linalg.norm(Mu)):
                     ctx.fail('aspreconditioner/%s/not-M' % cname, '|Mu - M_textbook u| = %.3g' % np.linalg.norm(Mu - M @ u), cs)
 
 
